@@ -42,7 +42,10 @@ fn probe<T, E: std::fmt::Debug>(
     if m.alloc.0 > budget {
         ctx.violation(&format!("C08:unbounded-allocation/{}/{}", op, class), json!({"case":full,"peak":m.alloc.0,"biggest_request":m.alloc.1,"budget":budget}));
     }
-    ctx.count("max_alloc_peak_seen", 0);
+    if ctx.events.load(std::sync::atomic::Ordering::Relaxed) % 2003 == 0 {
+        ctx.sample(json!({"op":op,"case":case,"input_bytes":input_bytes,"list_elements":list_elems,"fuel":fuel,"outcome":m.outcome.short(),
+                          "generators_derived":m.work.generators,"alloc_peak":m.alloc.0,"alloc_budget":budget}));
+    }
     m.value
 }
 
